@@ -51,12 +51,19 @@ let handle toks =
     let evs = ref [] in   (* events since last reset, newest first *)
     let out = Buffer.create 256 in
     let stop = ref false in
+    let guard = ref 0 in   (* 0 off, 1 watching for the first failing call, 2 tripped: ops are skipped until REC *)
+    let is_failure name r =
+      if List.mem name ["sb"; "st"; "sv"; "so"; "sS"; "su"; "tv"; "tov"; "tS"; "rs"; "jp"] then r <> 0
+      else if List.mem name ["ss"; "ta"; "to"; "xv"; "xo"; "aS"; "xu"; "uf"; "es"; "et"; "ev"; "eo"; "eS"; "eu"; "eb"; "cb"; "cs"; "cS"; "cv"; "emb"; "cln"] then r = 0
+      else false in
+    let cur = ref "" in
     let refv s = if String.length s > 0 && s.[0] = '$' then results.(int_of_string (String.sub s 1 (String.length s - 1))) else zs s in
     let run_op i (o : op) =
       match step fixed o !st with
       | Fault -> Buffer.add_string out "FAULT "; stop := true
       | Ret (a, s, e) ->
         st := s; results.(i) <- a;
+        if !guard = 1 && is_failure !cur (iz a) then guard := 2;
         (match o with OReset (_, _) | OClear -> if iz a = 0 then evs := [] | _ -> ());
         evs := List.rev_append e !evs;
         Buffer.add_string out (string_of_z a); Buffer.add_char out ' ' in
@@ -64,9 +71,17 @@ let handle toks =
       if not !stop then begin
         let f = Array.of_list (String.split_on_char ':' tok) in
         let a k = f.(k) in
+        cur := a 0;
+        if a 0 = "GUARD" then (guard := 1; Buffer.add_string out "ok ")
+        else if a 0 = "REC" then (Buffer.add_string out (if !guard = 2 then "tripped " else "clean "); guard := 0)
+        else if !guard = 2 then Buffer.add_string out "_ "
+        else
         match a 0 with
         | "snap" -> Buffer.add_string out ("{" ^ snap !st ^ "} ")
         | "fin" -> Buffer.add_string out (assemble !evs !st ^ " ")
+        | "evs" -> (* emit calls since the last reset: ref:len,... *)
+            let l = List.rev_map (fun e -> Printf.sprintf "%d:%d" (iz e.ev_ref) (List.length e.ev_bytes)) !evs in
+            Buffer.add_string out ((if l = [] then "-" else String.concat "," l) ^ " ")
         | "nvt" -> (* number of vtable events since reset, and number of distinct (nest, bytes) among them *)
             let vts = List.filter (fun e -> iz e.ev_kind = 1) !evs in
             let keys = List.sort_uniq compare (List.map (fun e -> (iz e.ev_nest, List.map iz e.ev_bytes)) vts) in
